@@ -410,6 +410,10 @@ class Replay:
     # -- redirections --------------------------------------------------
     def redirect(self, dt):
         kind = self.target_kind or 'file'
+        if kind == 'stream' and self.close_sent:
+            # asyncssh cannot attach a StreamWriter to a closed channel
+            # (AssertionError in _StreamWriter.__init__); noted, not judged
+            kind = 'file'
         rec = {'kind': kind, 'dt': dt}
         h = self.h
         if kind in ('file', 'name'):
